@@ -81,6 +81,11 @@ def run(ctx):
         dsel = [s for s in sd if "deps" in sqlc.norm(s)]
         ok = any("where target=?" in sqlc.norm(s) or "where target = ?" in sqlc.norm(s) for s in dsel)
         ctx.ob("R2.3", "deps|select-by-target", ok, where=dp.span, detail="deps() selects from Deps by target")
+        # a build that does not complete still needs its old (marked) edges: the listing must not filter on the flag
+        filt = [s_ for s_ in dsel if flag and re.search(r"\b%s\b" % re.escape(flag), sqlc.norm(s_).split(" where ", 1)[-1] if " where " in sqlc.norm(s_) else "")]
+        ctx.ob("R2.3", "deps|marked-edges-still-listed", not filt and bool(dsel), where=dp.span,
+               detail="deps() lists every edge of the target, marked or not" if not filt else
+               "deps() hides edges marked by zap_deps1: a build that is interrupted after zap_deps1 (or fails before re-declaring them) forgets its old dependencies and the target looks clean")
 
     # ---- R2.4
     dirt.memoisation(ctx, "R2.4")
